@@ -228,8 +228,7 @@ Definition lays_outb (ls : list line) (d : doc) : bool :=
 Definition rc_str (r : rc) : str :=
   match r with
   | RC_ini_base => Str "ini_base" | RC_concat => Str "concat"
-  | RC_dt_custom_prefix => Str "dt_custom_prefix" | RC_dt_hardwired => Str "dt_hardwired"
-  | RC_lang_marker => Str "lang_marker" | RC_typed_marker => Str "typed_marker"
+  | RC_dt_custom_prefix => Str "dt_custom_prefix"
   | RC_dir_unresolved => Str "dir_unresolved"
   | RC_ws_in_literal => Str "ws_in_literal" | RC_long_number => Str "long_number"
   end.
